@@ -680,23 +680,28 @@ mod tcp {
             let (prop, tier) = (rep.property.clone(), rep.tier.clone());
             handles.push(std::thread::spawn(move || {
                 let mut local = Report::new(&prop, &tier, seed);
-                let rt = match tokio::runtime::Builder::new_multi_thread().worker_threads(2).enable_all().build() {
-                    Ok(rt) => rt,
-                    Err(_) => {
-                        local.inconclusive("tcp leg: cannot build runtime");
-                        return local;
-                    }
-                };
                 loop {
                     let i = next.fetch_add(1, Ordering::SeqCst);
                     if i >= n {
                         break;
                     }
                     let sub = Rng::sub_seed(seed, i);
-                    // wall-clock watchdog: only ever inconclusive
-                    let r = rt.block_on(async { tokio::time::timeout(Duration::from_secs(120), run_one(&mut local, sub)).await });
-                    if r.is_err() {
-                        local.inconclusive(format!("tcp leg: scenario {} did not finish within 120 s of wall-clock time", sub));
+                    // every scenario on a runtime and an OS thread of its own: the wall-clock watchdog must
+                    // work even when a worker of that runtime never yields (then nothing is concluded from
+                    // the scenario and its thread is left behind until the process ends)
+                    let (tx, rx) = std::sync::mpsc::channel();
+                    let (p2, t2) = (prop.clone(), tier.clone());
+                    std::thread::spawn(move || {
+                        let mut one = Report::new(&p2, &t2, seed);
+                        if let Ok(rt) = tokio::runtime::Builder::new_multi_thread().worker_threads(2).enable_all().build() {
+                            rt.block_on(run_one(&mut one, sub));
+                            rt.shutdown_timeout(Duration::from_millis(200));
+                            let _ = tx.send(one);
+                        }
+                    });
+                    match rx.recv_timeout(Duration::from_secs(150)) {
+                        Ok(one) => local.merge(one),
+                        Err(_) => local.count("tcp_scenarios_abandoned_by_the_wall_clock_watchdog", 1),
                     }
                 }
                 local
